@@ -6,6 +6,8 @@ import M3d.Lemmas.TransformNest
 import M3d.Lemmas.TransformNest2
 import M3d.Lemmas.TransformHist
 import M3d.Lemmas.TransformHist2
+import M3d.Lemmas.TransformScene
+import M3d.Lemmas.TransformScene2
 import Mathlib.Algebra.Order.Field.Rat
 /-!
 # C05 — transforms invert, and transformed objects are images of the original
@@ -942,5 +944,119 @@ theorem transform_collider_circle_2d (t : Xf2 K) (h : t.DistValid) (c : Collider
 
 example : (Xf2.jcons (.scale (-2 : ℚ)) (.jcons (.ortho (M2.rotation (3/5) (4/5))) (.jcons (.translate ⟨5, 0⟩) .jnil))).DistValid := by
   refine ⟨by show (-2 : ℚ) ≠ 0; norm_num, rotation2_dist_valid _ _ (by norm_num), trivial, trivial⟩
+
+/-! ## Scene graphs: transformed colliders inside multi-member colliders inside transformed colliders
+
+`TransformCollider(t, c)` accepts any collider `c`; in a scene graph `c` is a collider with a member list
+(`JoinedCollider`, or a user's own type) whose members are again transformed colliders.  Such a collider hands the
+`*Ray` it was given to one member after the other, and a `RayCollisions` callback may cast secondary rays at
+transformed colliders while the outer query is still running.  Model: `M3d/Model/TransformScene.lean`. -/
+
+/-- **A transform wrapped round a multi-member collider is the multi-member collider of the wrapped members**:
+`TransformCollider(t, group{m, ms…})` answers every ray query (`RayCollisions`: the collisions handed to the callback
+and the returned count; `FirstRayCollision`) and every sphere query exactly as `group{TransformCollider(t, m),
+TransformCollider(t, ms)…}` does — for ANY transform value and ANY members (no hypothesis: this is a statement about
+how the queries are routed).  With `nested_collider` a scene graph of any depth therefore answers as the list of its
+leaves, each wrapped ONCE in the `JoinedTransform` of the transforms on its path (innermost first), and every law
+proved for one wrapper (`transform_collider_conj`, `transform_collider_hits`, `transform_collider_first`,
+`transform_collider_sphere`) holds for every leaf of the scene with its composite transform. -/
+theorem transform_group_distrib (sqrtF : K → K) (t : Xf K) (m : Collider K) (ms : List (Collider K)) :
+    let whole := transformCollider sqrtF t (groupCollider m ms)
+    let parts := groupCollider (transformCollider sqrtF t m) (ms.map (transformCollider sqrtF t))
+    (∀ r, whole.hits r = parts.hits r) ∧ (∀ r, whole.count r = parts.count r) ∧
+      (∀ r, whole.first r = parts.first r) ∧ ∀ p rad, whole.sphere p rad = parts.sphere p rad :=
+  ⟨group_hits_distrib sqrtF t m ms, group_count_distrib sqrtF t m ms, group_first_distrib sqrtF t m ms,
+    group_sphere_distrib sqrtF t m ms⟩
+
+/-- **The scene `TransformCollider(t₁, group{TransformCollider(t₂, a), b})`** (a moved part next to a fixed part, the
+whole placed in the world): the collisions reported for the ray `r` are those of `a` on `r` pulled back through
+`JoinedTransform{t₂, t₁}` followed by those of `b` on `r` pulled back through `t₁` alone — each with its parameter
+unchanged and its normal pushed out through the same transform(s) (`outerCollision`); `b` is asked about the ray in
+ITS space whatever happened inside the member before it. -/
+theorem scene_two_level (sqrtF : K → K) (hsq : ∀ q, 0 ≤ q → sqrtF (q * q) = q) (t₁ t₂ : Xf K) (h₁ : t₁.DistValid)
+    (h₂ : t₂.DistValid) (a b : Collider K) (ha : a.NiceNormals) (r : Ray K) :
+    ((Scene.xform t₁ (.pair (.xform t₂ (.leaf a)) (.leaf b))).collider sqrtF).hits r =
+      (a.hits (innerRay (ofList [t₂, t₁]).inverse r)).map (outerCollision sqrtF (ofList [t₂, t₁])) ++
+        (b.hits (innerRay t₁.inverse r)).map (outerCollision sqrtF t₁) := by
+  have hn := nested_collider sqrtF hsq t₂ [t₁] (by
+    intro t ht
+    simp only [List.mem_cons, List.not_mem_nil, or_false] at ht
+    rcases ht with rfl | rfl
+    · exact h₂
+    · exact h₁) a ha
+  simp only [nestCollider, List.foldl_cons, List.foldl_nil] at hn
+  simp only [Scene.collider]
+  rw [group_hits_distrib]
+  simp only [groupCollider, List.map_cons, List.map_nil, List.flatMap_cons, List.flatMap_nil, List.append_nil, hn]
+  rfl
+
+/-- **The pointer-level program agrees with the value-level description, for every scene and every callback that only
+allocates**: run `RayCollisions(r, f)` on a scene (`Scene.run`: colliders are handed the ADDRESS of a ray in the store of
+all `Ray` objects, `innerRay` allocates a new object, a group passes the address it received to each member in turn,
+a leaf reads the ray and calls `f` for each collision; `f` may do anything to the store that only adds objects, e.g.
+cast secondary rays at other transformed colliders).  Then the store afterwards is the old store plus new cells — no
+ray that anybody still holds is ever written to — and the collisions handed to `f` are exactly `hits r` of the
+collider VALUE of the scene (`Scene.collider`: `transformCollider` / `groupCollider`), to which all other theorems of
+this file apply.  This is the "all programs" part of the property for ray queries: sharing one `*Ray` among the members
+of a group, nesting, and re-entrant queries do not change any answer. -/
+theorem scene_pointer_semantics (sqrtF : K → K) (onHit : List (Ray K) → List (Ray K))
+    (hcb : ∀ st, ∃ e, onHit st = st ++ e) (s : Scene K) (addr : Nat) (st : List (Ray K)) (r : Ray K)
+    (h : st[addr]? = some r) :
+    ∃ e, s.run sqrtF onHit addr st = (st ++ e, (s.collider sqrtF).hits r) :=
+  Scene.run_spec sqrtF onHit hcb s addr st r h
+
+/-- **Secondary rays cast from inside the callback** (shadow rays: on every collision allocate the ray `sec` and query
+the scene `sub` with it) are such a callback, so `scene_pointer_semantics` applies: the primary query reports what it
+reports without the secondary queries. -/
+theorem scene_shadow_rays (sqrtF : K → K) (sub : Scene K) (sec : Ray K) (s : Scene K) (addr : Nat)
+    (st : List (Ray K)) (r : Ray K) (h : st[addr]? = some r) :
+    ∃ e, s.run sqrtF (shadowCallback sqrtF sub sec) addr st = (st ++ e, (s.collider sqrtF).hits r) :=
+  Scene.run_spec sqrtF _ (shadowCallback_appends sqrtF sub sec) s addr st r h
+
+/-- non-vacuity of the hypotheses (`st[addr]? = some r`; a callback that only allocates) and **why the allocation in
+`innerRay` matters**: the scene `TransformCollider(T(5,0,0), group{TransformCollider(T(1,0,0), a), b})` with probes
+whose parameter shows the `x` of the ray origin they are handed, queried with a ray from (10,0,0).  The library's
+program reports 4 for `a` and 5 for `b` (= the value semantics); the same program with RECYCLED inner rays
+(`Scene.runPooled`) lets the first member overwrite the ray of the group, and `b` reports 4. -/
+example :
+    let a : Collider ℚ := probeCollider ⟨-9, -9, -9⟩ ⟨9, 9, 9⟩ ⟨1, 0, 0⟩ ⟨0, 0, 0⟩ [⟨0, ⟨1, 0, 0⟩, 1⟩]
+    let b : Collider ℚ := probeCollider ⟨-9, -9, -9⟩ ⟨9, 9, 9⟩ ⟨1, 0, 0⟩ ⟨0, 0, 0⟩ [⟨0, ⟨1, 0, 0⟩, 2⟩]
+    let s : Scene ℚ := .xform (.translate ⟨5, 0, 0⟩) (.pair (.xform (.translate ⟨1, 0, 0⟩) (.leaf a)) (.leaf b))
+    let r : Ray ℚ := ⟨⟨10, 0, 0⟩, ⟨1, 0, 0⟩⟩
+    ((s.run (fun x => x) (fun st => st ++ [r]) 0 [r]).2).map Hit.scale = [4, 5] ∧
+      ((s.collider (fun x => x)).hits r).map Hit.scale = [4, 5] ∧
+      ((s.runPooled (fun x => x) 1 0 [r, r]).2).map Hit.scale = [4, 4] := by
+  decide +kernel
+
+/-- 2-D twin of `transform_group_distrib` (`model2d.TransformCollider` round a multi-member collider). -/
+theorem transform_group_distrib_2d (sqrtF : K → K) (t : Xf2 K) (m : Collider2 K) (ms : List (Collider2 K)) :
+    let whole := transformCollider2 sqrtF t (groupCollider2 m ms)
+    let parts := groupCollider2 (transformCollider2 sqrtF t m) (ms.map (transformCollider2 sqrtF t))
+    (∀ r, whole.hits r = parts.hits r) ∧ (∀ r, whole.count r = parts.count r) ∧
+      (∀ r, whole.first r = parts.first r) ∧ ∀ p rad, whole.circle p rad = parts.circle p rad :=
+  ⟨group_hits_distrib2 sqrtF t m ms, group_count_distrib2 sqrtF t m ms, group_first_distrib2 sqrtF t m ms,
+    group_sphere_distrib2 sqrtF t m ms⟩
+
+/-- 2-D twin of `scene_pointer_semantics` + `scene_shadow_rays`: the pointer-level run of `RayCollisions` on a 2-D scene
+only adds `Ray` objects and reports the collisions of the scene's collider value, for every callback that only allocates —
+in particular one that casts secondary rays at a scene. -/
+theorem scene_pointer_semantics_2d (sqrtF : K → K) (onHit : List (Ray2 K) → List (Ray2 K))
+    (hcb : ∀ st, ∃ e, onHit st = st ++ e) (s : Scene2 K) (addr : Nat) (st : List (Ray2 K)) (r : Ray2 K)
+    (h : st[addr]? = some r) (sub : Scene2 K) (sec : Ray2 K) :
+    (∃ e, s.run sqrtF onHit addr st = (st ++ e, (s.collider sqrtF).hits r)) ∧
+      ∃ e, s.run sqrtF (shadowCallback2 sqrtF sub sec) addr st = (st ++ e, (s.collider sqrtF).hits r) :=
+  ⟨Scene2.run_spec sqrtF onHit hcb s addr st r h,
+    Scene2.run_spec sqrtF _ (shadowCallback_appends2 sqrtF sub sec) s addr st r h⟩
+
+/-- non-vacuity (2-D): the scene of the 3-D example in the plane; recycled inner rays change the second member's answer. -/
+example :
+    let a : Collider2 ℚ := probeCollider2 ⟨-9, -9⟩ ⟨9, 9⟩ ⟨1, 0⟩ ⟨0, 0⟩ [⟨0, ⟨1, 0⟩, 1⟩]
+    let b : Collider2 ℚ := probeCollider2 ⟨-9, -9⟩ ⟨9, 9⟩ ⟨1, 0⟩ ⟨0, 0⟩ [⟨0, ⟨1, 0⟩, 2⟩]
+    let s : Scene2 ℚ := .xform (.translate ⟨5, 0⟩) (.pair (.xform (.translate ⟨1, 0⟩) (.leaf a)) (.leaf b))
+    let r : Ray2 ℚ := ⟨⟨10, 0⟩, ⟨1, 0⟩⟩
+    ((s.run (fun x => x) (fun st => st ++ [r]) 0 [r]).2).map Hit2.scale = [4, 5] ∧
+      ((s.collider (fun x => x)).hits r).map Hit2.scale = [4, 5] ∧
+      ((s.runPooled (fun x => x) 1 0 [r, r]).2).map Hit2.scale = [4, 4] := by
+  decide +kernel
 
 end M3d.C05
